@@ -64,7 +64,7 @@ theorem found_slot {d : Disk} (hs : SInv d) (v : Vol) (fsL : List LRec) (ch : Li
   have hBl : B < d.raw.units.size := by rw [← hs.inv.size]; exact (hchf B hB).1
   have hsh := hs.inv.shape.unit hBl
   refine ⟨B, k, hB, hk13, hkey, rfl, hst, hname, entryAt_length _ _ (by rw [hsh.1]; omega), entryAt_bytes _ _ hsh.2, ?_⟩
-  rcases hroot.slots _ hxm with h0 | ⟨_, hu, _⟩
+  rcases (hroot.slots _ hxm).file (by simp only; omega) with h0 | ⟨_, hu, _⟩
   · simp only at h0; rw [h0] at hst; simp at hst
   · exact hu
 
